@@ -12,6 +12,7 @@ import TephraModel.Fam.SpanOps
 import TephraModel.Fam.Nav
 import TephraModel.Fam.Lines
 import TephraModel.Fam.Lex
+import TephraModel.Fam.Run
 
 open Tephra
 
@@ -25,6 +26,8 @@ def handle (line : String) : String :=
       else if fam == "window" then Fam.Window.run fields
       else if fam == "lexiter" then Fam.Lex.runIter fields
       else if fam == "lexops" then Fam.Lex.runOps fields
+      else if ["peg", "rep", "capture", "errors", "bracket", "list", "recover", "twice", "scoped", "ctxops",
+               "term", "nopanic"].contains fam then Fam.RunF.run fields
       else ("?", "FAIL unknown family " ++ fam)
     m ++ "\t" ++ v
   | [] => "?\tFAIL empty line"
